@@ -521,3 +521,8 @@ impl TmplGroup {
         self.trees.iter().map(|(name, tmpl)| (name.as_str(), tmpl))
     }
 }
+
+// verification hooks (glass_easel_verif): compiled only under the cfg guard
+#[cfg(any(kani, glass_easel_verif))]
+#[path = "/verif/hooks/tc_group.rs"]
+mod verif;
